@@ -41,19 +41,23 @@ func (ui UserInfo) build() *url.Userinfo {
 // Case is a base URL (raw text to parse, or explicit fields), two userinfos
 // and an error shape.
 type Case struct {
-	Raw      vp.S     `json:"raw"`
-	Direct   bool     `json:"direct"` // build the URL from the fields below instead of parsing Raw
-	Scheme   string   `json:"scheme"`
-	Opaque   string   `json:"opaque"`
-	Host     string   `json:"host"`
-	Path     string   `json:"path"`
-	RawPath  string   `json:"raw_path"`
-	OmitHost bool     `json:"omit_host"`
-	ForceQ   bool     `json:"force_query"`
-	RawQuery string   `json:"raw_query"`
-	Fragment string   `json:"fragment"`
-	RawFrag  string   `json:"raw_fragment"`
-	Echo     bool     `json:"echo"` // query and fragment echo the first secret
+	Raw      vp.S   `json:"raw"`
+	Direct   bool   `json:"direct"` // build the URL from the fields below instead of parsing Raw
+	Scheme   string `json:"scheme"`
+	Opaque   string `json:"opaque"`
+	Host     string `json:"host"`
+	Path     string `json:"path"`
+	RawPath  string `json:"raw_path"`
+	OmitHost bool   `json:"omit_host"`
+	ForceQ   bool   `json:"force_query"`
+	RawQuery string `json:"raw_query"`
+	Fragment string `json:"fragment"`
+	RawFrag  string `json:"raw_fragment"`
+	Echo     bool   `json:"echo"` // query and fragment echo the first secret
+	// PadTo: when positive (and the URL is not opaque) the path is extended
+	// with letters until the redacted text of the URL is exactly that long
+	// (texts around 256, 512, 1024 and 4096 bytes: sizes of fixed buffers).
+	PadTo    int      `json:"pad_to,omitempty"`
 	U1       UserInfo `json:"u1"`
 	U2       UserInfo `json:"u2"`
 	ErrShape int      `json:"err_shape"` // 0 nil, 1 *url.Error, 2 wrapped *url.Error, 3 plain error, 4 *url.Error with URL==""
@@ -85,6 +89,30 @@ func buildCause(nest []string, otherURL string) (cause error, nested []*url.Erro
 }
 
 func (c Case) base() (*url.URL, bool) {
+	u, ok := c.unpadded()
+	if !ok || c.PadTo <= 0 || u.Opaque != "" {
+		return u, ok
+	}
+	redactedLen := func() int {
+		t := *u
+		t.User = url.UserPassword("xxxxx", "xxxxx")
+		return len(t.String())
+	}
+	for i := 0; i < 3; i++ {
+		cur := redactedLen()
+		if cur >= c.PadTo {
+			break
+		}
+		if !strings.HasPrefix(u.Path, "/") {
+			u.Path = "/" + u.Path
+			continue
+		}
+		u.Path, u.RawPath = u.Path+strings.Repeat("a", c.PadTo-cur), ""
+	}
+	return u, true
+}
+
+func (c Case) unpadded() (*url.URL, bool) {
 	if c.Direct {
 		return &url.URL{Scheme: c.Scheme, Opaque: c.Opaque, Host: c.Host, Path: c.Path, RawPath: c.RawPath, OmitHost: c.OmitHost,
 			ForceQuery: c.ForceQ, RawQuery: c.RawQuery, Fragment: c.Fragment, RawFragment: c.RawFrag}, true
@@ -303,6 +331,9 @@ var redactProp = vp.Register(vp.Prop[Case]{
 		if rapid.IntRange(0, 2).Draw(t, "nested") == 0 {
 			c.Nest = rapid.SliceOfN(rapid.SampledFrom([]string{"url", "url", "wrap", "join", "typednil"}), 1, 3).Draw(t, "nest")
 		}
+		if rapid.IntRange(0, 5).Draw(t, "pad") == 0 {
+			c.PadTo = rapid.SampledFrom([]int{256, 256, 512, 1024, 4096, 128, 64}).Draw(t, "padbase") + rapid.IntRange(-4, 4).Draw(t, "paddelta")
+		}
 		if rapid.IntRange(0, 3).Draw(t, "direct") == 0 {
 			c.Direct = true
 			c.Scheme = rapid.SampledFrom([]string{"", "http", "https", "mailto", "file", "a+b"}).Draw(t, "scheme")
@@ -317,6 +348,17 @@ var redactProp = vp.Register(vp.Prop[Case]{
 			c.RawFrag = rapid.SampledFrom([]string{"", "", "a%20b"}).Draw(t, "rawfrag")
 		} else {
 			c.Raw = vp.S(gen.URLText().Draw(t, "raw"))
+		}
+		if c.PadTo > 0 && rapid.Bool().Draw(t, "plain") {
+			// A plain URL that needs no escaping anywhere (the kind a fast
+			// path would serve), padded to the boundary length.
+			c.Direct, c.Raw = true, ""
+			c.Scheme = rapid.SampledFrom([]string{"http", "https"}).Draw(t, "pscheme")
+			c.Opaque, c.RawPath, c.RawFrag, c.OmitHost, c.ForceQ = "", "", "", false, false
+			c.Host = rapid.SampledFrom([]string{"host", "api.example.org", "host:80"}).Draw(t, "phost")
+			c.Path = rapid.SampledFrom([]string{"", "/", "/p/q"}).Draw(t, "ppath")
+			c.RawQuery = rapid.SampledFrom([]string{"", "x=1", "page=2"}).Draw(t, "pq")
+			c.Fragment = rapid.SampledFrom([]string{"", "f", "section-Z"}).Draw(t, "pfrag")
 		}
 		return c
 	},
